@@ -21,7 +21,7 @@ CLAIMED = {
             "seeded deterministic simulation: start-event invariant against the run's own history"),
 }
 
-PENDING = {'C06': 'not claimed yet: the check for this property is still being built (see DESIGN.md build order)', 'C07': 'not claimed yet: the check for this property is still being built (see DESIGN.md build order)', 'C09': 'not claimed yet: the check for this property is still being built (see DESIGN.md build order)', 'C15': 'not claimed yet: the check for this property is still being built (see DESIGN.md build order)', 'C16': 'not claimed yet: the check for this property is still being built (see DESIGN.md build order)', 'C20': 'not claimed yet: the check for this property is still being built (see DESIGN.md build order)'}
+PENDING = {'C07': 'not claimed yet: the check for this property is still being built (see DESIGN.md build order)', 'C15': 'not claimed yet: the check for this property is still being built (see DESIGN.md build order)', 'C20': 'not claimed yet: the check for this property is still being built (see DESIGN.md build order)'}
 
 CLAIMED["C10"] = ("travsim", "3.13", "history check against an executable model of the documented retry/stop/replay/verdict rules, with distinct-identifier and own-result (serial-tagged results) checks, valid and invalid settings, replayed jobs across crash-restart epochs",
                   "seeded deterministic simulation with fault injection: refinement against an executable retry/replay reference model")
@@ -35,6 +35,13 @@ CLAIMED["C13"] = ("statesim", "4.2", "simulated cluster of pools (workers on gat
                   "seeded simulated multi-party store histories; contact log vs independent scope model")
 CLAIMED["C17"] = ("statesim", "4.3", "histories of per-image and per-vm state operations with crashes between the per-image steps and lost writes over vms with 1-3 images; the real listing code (both regexes, intersection across images, memory files) is compared with a set model after every step",
                   "seeded crash/lost-write histories over a fake disk; listing vs set model after every step")
+
+CLAIMED["C06"] = ("travsim", "3.8", "graph invariants (acyclic, one root, reachability, edge symmetry, identities, unique producer per required state, object sets) evaluated on the live graph after eager parsing and after EVERY lazy expansion step of simulated multi-worker traversals, whose expansion order is the schedule",
+                  "seeded deterministic simulation: graph invariants checked after every lazy expansion step and at the end of each run")
+CLAIMED["C09"] = ("travsim", "3.11", "per-worker copy equivalence, symmetric bridging and shared registers on the live graph; refinement of the lazily expanded graph (under seeded interleavings) against an up-front parse of the same input; parse-twice equality",
+                  "seeded deterministic simulation: lazy-vs-eager refinement and bridging invariants on the traversed graph")
+CLAIMED["C16"] = ("travsim", "3.12", "shadow models of the name index (naive contiguous-subsequence scan) and of the visit registers (wrapped register calls) compared with the live structures during and after simulated runs; restricted to the name sets and register histories that simulated jobs produce",
+                  "seeded deterministic simulation: shadow-model comparison of index and registers during runs")
 
 NOT_APPLICABLE = {
     "C11": "pure function of the argument list and the configuration files: no schedule, clock, fault or multi-party behaviour for a simulator to control (DESIGN.md 6)",
@@ -84,6 +91,11 @@ DEFAULT_NOTE = ("Sampling, not proof. Trusted: the simulator's stubs (virtual-ti
                 "state effects, world model of pools behind the state-control door), the third-party Cartesian parser (memoised), "
                 "and the oracle's reading of the property. Real: all of avocado_i2n.cartgraph, plugins/runner.run_workers/run_test_node, params_parser.")
 NOTES = {}
+NOTES["C06"] = ("Sampling. For eager parsing there is no schedule: that part is the base case of the same harness (seeded input generation + invariant). The simulation target is the lazy expansion, whose order depends on the workers' interleaving. "
+               "Inputs: selections x vm variant restrictions (incl. multi-variant) x worker sets of the shipped suite.")
+NOTES["C09"] = NOTES["C06"]
+NOTES["C16"] = ("Restricted claim: decides C16 on the name sets and register histories that simulated jobs produce; queries that match one name at two positions (multi-vm names repeat variants such as default_bios) are outside the property's stated domain and skipped. "
+               "Driving PrefixTree with arbitrary synthetic name sets would be plain property-based testing without schedule or fault and is deliberately not done under this technique.")
 NOTES["C12"] = ("Sampling. One in-memory backend stands for all real backends; the experimental check_mode is modelled as coded and the strict no-alteration reading is checked in the check_mode=rr family; "
                "after an injected backend error only 'old or new states, nothing else changed' is required.")
 NOTES["C13"] = ("Sampling. No scheduling inside one pool operation: what is simulated is the multi-party store and its history. 'Closest' is the documented order written independently of proximity().")
